@@ -6,6 +6,11 @@
  *
  * obs  : status/out tokens of the call, callback log, then for every live slot k
  *        a<k>=[elements via get_at]  n<k>=cc_array_size  l<k>=get_last (or -)
+ *        On a `sort_mod` line (comparator with ties) the sorted slot is printed tie-invariantly instead:
+ *        k<k>=[keys in order]  ms<k>=[elements in increasing order]  n<k>  — the order qsort leaves among
+ *        equal keys is not promised by C, so L1 does not see it; it stays in phys (buf<k>), i.e. the L3
+ *        comparison rests on this C library's qsort being what the model assumes (stable).  A C-only
+ *        check (WALK=sort-not-ordered / sort-not-a-permutation) verifies every sort call on its own.
  * phys : per live slot  size<k> cap<k> blk<k>(slots of the buffer block) g<k>((size_t)(capacity*exp_factor))
  *        buf<k>=[live slots], then the cursors  it=<slot>:<index>:<last_removed>  zit=<s1>:<s2>:<index>:<lr> */
 #include "cc_array.c"
@@ -39,10 +44,34 @@ static void fn_reduce(void *a, void *b, void *res) {
     *(unsigned long long *)res = (x * 3 + y) % 1000003ULL;
 }
 
+/* the slot just sorted by a comparator with ties (sort_mod): the order among equal keys is qsort's
+ * business, so on that line L1 sees the key sequence in order and the multiset of the elements (printed
+ * in increasing order); the exact order stays in phys (L3, resting on this C library's qsort) */
+static int tie_slot = -1;
+static int cmp_u64(const void *a, const void *b) {
+    unsigned long long x = *(const unsigned long long *)a, y = *(const unsigned long long *)b; return x < y ? -1 : x > y; }
+static void obs_tie(int k) {
+    size_t n = cc_array_size(A[k]);
+    const void *const *pb = cc_array_get_buffer(A[k]);
+    char nm[8]; snprintf(nm, sizeof nm, " k%d", k);
+    O_LIST(nm);
+    for (size_t i = 0; i < n; i++) o_item(VAL(pb[i]) % 10);
+    o_end();
+    unsigned long long *t = __real_malloc((n ? n : 1) * sizeof *t);
+    for (size_t i = 0; i < n; i++) t[i] = VAL(pb[i]);
+    qsort(t, n, sizeof *t, cmp_u64);
+    snprintf(nm, sizeof nm, " ms%d", k);
+    O_LIST(nm);
+    for (size_t i = 0; i < n; i++) o_item(t[i]);
+    o_end();
+    __real_free(t);
+    o(" n%d=%zu", k, n);
+}
 static void obs_all(void) {
     if (!sweep_now) return;      /* sparse session: status, out-values and callback log only */
     for (int k = 0; k < NSLOT; k++) {
         if (!A[k]) continue;
+        if (k == tie_slot) { obs_tie(k); continue; }
         char nm[8]; snprintf(nm, sizeof nm, " a%d", k);
         O_LIST(nm);
         size_t n = cc_array_size(A[k]);
@@ -106,6 +135,7 @@ static enum cc_stat make(Cmd *c, CC_Array **out) {
     return cc_array_new_conf(&conf, out);
 }
 static void do_op(Cmd *c) {
+    tie_slot = -1;
     noout = kv_u64(c, "noout", 0) == 1 &&
             (is_op(c, "replace_at") || is_op(c, "remove") || is_op(c, "remove_at") || is_op(c, "remove_last") ||
              is_op(c, "it_remove") || is_op(c, "it_replace") || is_op(c, "zit_remove") || is_op(c, "zit_replace"));
@@ -213,8 +243,28 @@ static void do_op(Cmd *c) {
     } else if (is_op(c, "capacity")) { o("st=- out=%zu", cc_array_capacity(a));
     } else if (is_op(c, "map")) { cc_array_map(a, fn_visit); o("st=- "); o_cb();
     } else if (is_op(c, "reduce")) { red_acc = pos_u64(c, 0); cc_array_reduce(a, fn_reduce, &red_acc); o("st=- out=%llu ", red_acc); o_cb();
-    } else if (is_op(c, "sort")) { cc_array_sort(a, cmp_num); o("st=-");
-    } else if (is_op(c, "sort_mod")) { cc_array_sort(a, cmp_mod10); o("st=-");
+    } else if (is_op(c, "sort") || is_op(c, "sort_mod")) {
+        /* C-only identity check (obs of sort_mod compares keys and the multiset only): the buffer after
+         * the call is ordered by the comparator and is a permutation of the buffer before the call,
+         * size and capacity untouched */
+        int mod = is_op(c, "sort_mod");
+        size_t n = a->size, cap = a->capacity;
+        unsigned long long *before = __real_malloc((n ? n : 1) * sizeof *before), *after = __real_malloc((n ? n : 1) * sizeof *after);
+        for (size_t i = 0; i < n; i++) before[i] = VAL(a->buffer[i]);
+        cc_array_sort(a, mod ? cmp_mod10 : cmp_num);
+        o("st=-");
+        int bad_order = 0, bad_perm = (a->size != n || a->capacity != cap);
+        for (size_t i = 0; i < n && !bad_perm; i++) after[i] = VAL(a->buffer[i]);
+        for (size_t i = 0; i + 1 < n && !bad_perm; i++)
+            if (mod ? after[i] % 10 > after[i + 1] % 10 : after[i] > after[i + 1]) bad_order = 1;
+        if (!bad_perm) {
+            qsort(before, n, sizeof *before, cmp_u64); qsort(after, n, sizeof *after, cmp_u64);
+            for (size_t i = 0; i < n; i++) if (before[i] != after[i]) bad_perm = 1;
+        }
+        __real_free(before); __real_free(after);
+        if (bad_order) o(" WALK=sort-not-ordered");
+        if (bad_perm) o(" WALK=sort-not-a-permutation");
+        if (mod) tie_slot = k;
     } else if (!strncmp(c->op, "mk_", 3)) {
         if (A[to] || to == k) o("st=- slotbusy");
         else {
